@@ -186,6 +186,11 @@ pub trait Sut: 'static {
     fn flags(idx: &Self::Index) -> String;
     /// Canonical content of a bucket payload (versions masked, maps sorted).
     fn canon_bucket(cfg: &Self::Cfg, data: &[u8]) -> String;
+    /// Failure classes that are one defect irrespective of configuration,
+    /// start state and last op get one canonical signature.
+    fn canonical_signature(_kind: &str) -> Option<String> {
+        None
+    }
     /// Rewrites a manifest-format object map into the legacy layout.
     fn to_legacy(_cfg: &Self::Cfg, _store: &Store) -> Option<Store> {
         None
@@ -565,19 +570,15 @@ fn crash_enumerate<S: Sut>(
         for i in idxs {
             apply_entry(&mut store, &j[*i]);
         }
-        let class = if label.starts_with("prefix") {
-            let k = idxs.len();
-            if k < rec.n_puts {
-                "before-commit"
-            } else if k == rec.n_puts {
-                "at-commit"
-            } else {
-                "during-deletes"
-            }
-        } else if label.starts_with("cut:buckets") {
-            "cut-before-commit"
-        } else {
-            "cut-during-deletes"
+        // phase of the crash state, by what has landed
+        let meta_landed = idxs.iter().any(|i| matches!(j[*i], JEntry::Put(ObjKey::Meta, _)));
+        let dels_landed = idxs.iter().any(|i| matches!(j[*i], JEntry::Del(_)));
+        let class = match (label.starts_with("prefix"), meta_landed, dels_landed) {
+            (true, false, _) => "before-commit",
+            (true, true, false) => "at-commit",
+            (true, true, true) => "during-deletes",
+            (false, false, _) => "cut-before-commit",
+            (false, true, _) => "cut-during-deletes",
         };
         let loaded = guard("crash:load", || {
             S::load(cfg, &store).map_err(|e| Fail::new(format!("crash:{class}:load-failed"), format!("{label}: {e}")))
@@ -692,15 +693,22 @@ fn crash_enumerate<S: Sut>(
                 let evals = &mut c.evals;
                 guard("battery", || S::light_battery(idx, cfg, model, evals)).map_err(|x| x.prefixed(&format!("{tag}live:")))?;
             }
-            // nothing was committed: the object map loads as the last commit
+            // the object map still loads as the last commit (or, as for a
+            // crash at this point, as the interrupted flush in full)
             {
                 let st = &live.store;
                 let re = guard("load", || {
                     S::load(cfg, st).map_err(|e| Fail::new(format!("{tag}load-failed"), e))
                 })?;
                 let evals = &mut c.evals;
-                guard("battery", || S::light_battery(&re, cfg, old, evals))
-                    .map_err(|x| x.prefixed(&format!("{tag}durable-not-last-commit:")))?;
+                if let Err(f_old) = guard("battery", || S::light_battery(&re, cfg, old, evals)) {
+                    guard("battery", || S::light_battery(&re, cfg, new, evals)).map_err(|f_new| {
+                        Fail::new(
+                            format!("{tag}durable-neither-old-nor-new"),
+                            format!("vs last commit [{}] {}; vs failed flush [{}] {}", f_old.kind, f_old.detail, f_new.kind, f_new.detail),
+                        )
+                    })?;
+                }
             }
             // retry persists the current state
             do_flush(&mut live, None).map_err(|(_, e)| Fail::new(format!("{tag}retry-flush-error"), e))?;
@@ -746,6 +754,7 @@ pub struct ExploreOut {
     pub light_evals: u64,
     pub deep_evals: u64,
     pub violations: u64,
+    pub known_findings: u64,
 }
 
 fn hist_json<S: Sut>(x: &Explore<S>, hist: &[u16]) -> Value {
@@ -758,16 +767,18 @@ fn make_violation<S: Sut>(part: &str, x: &Explore<S>, hist: &[u16], f: &Fail, ph
         .last()
         .map(|i| hop_kind::<S>(&x.alphabet[*i as usize]))
         .unwrap_or_else(|| "start".into());
-    let signature = format!(
-        "{}/{}/{}/{}/{}{}/after:{}",
-        S::PROP,
-        part,
-        S::cfg_label(&x.cfg),
-        x.start_label,
-        phase,
-        f.kind,
-        last
-    );
+    let signature = S::canonical_signature(&f.kind).unwrap_or_else(|| {
+        format!(
+            "{}/{}/{}/{}/{}{}/after:{}",
+            S::PROP,
+            part,
+            S::cfg_label(&x.cfg),
+            x.start_label,
+            phase,
+            f.kind,
+            last
+        )
+    });
     let ops = hist_json::<S>(x, hist);
     Violation {
         signature,
@@ -869,8 +880,15 @@ where
                 let mut hist = h.clone();
                 hist.push(oi as u16);
                 if let Some(f) = &c.fail {
-                    out.violations += 1;
+                    // a violation listed in known_findings.json is recorded by `run` but
+                    // does not stop the search; the failing history is not extended
+                    let before = run.violation_count();
                     run.violation(make_violation::<S>(part, x, &hist, f, ""));
+                    if run.violation_count() > before {
+                        out.violations += 1;
+                    } else {
+                        out.known_findings += 1;
+                    }
                     continue;
                 }
                 let fresh = seen.insert(c.key);
@@ -949,8 +967,13 @@ where
                     out.deep_states_checked += 1;
                     execs += 1;
                     if let Some(f) = fail {
-                        out.violations += 1;
+                        let before = run.violation_count();
                         run.violation(make_violation::<S>(part, x, h, &f, "deep:"));
+                        if run.violation_count() > before {
+                            out.violations += 1;
+                        } else {
+                            out.known_findings += 1;
+                        }
                     }
                 }
             }
